@@ -13,6 +13,7 @@
 #include "runtime/d_code.h"
 #include "runtime/d_string.h"
 #include "runtime/d_array.h"
+#include "runtime/d_scalar.h"
 #include "parser/config/config_parser.hpp"
 #include "parser/assembly/assembly_parser.h"
 #include "parser/sqf/sqf_parser.hpp"
@@ -405,6 +406,14 @@ static value run_step(const value& st, std::map<int, std::unique_ptr<VM>>& vms)
             {
                 out.set("str", v.to_string_sqf());
                 out.set("type", std::string(v.type().to_string()));
+                out.set("raw", v.to_string());
+                if (v.is<sqf::runtime::t_scalar>())
+                {
+                    float f = v.data<sqf::types::d_scalar, float>();
+                    unsigned int bits; memcpy(&bits, &f, sizeof bits);
+                    char b2[16]; snprintf(b2, sizeof b2, "%08x", bits);
+                    out.set("bits", std::string(b2));
+                }
                 if (st["hash"].boolean(false))
                 {
                     char buf[32]; snprintf(buf, sizeof buf, "%zx", v.hash());
